@@ -425,4 +425,21 @@ example : Date.iso_week (dateOfYo 2021 4) = .ok (2021 * 1024 + 1 * 16 + flagsOf 
     Date.iso_week (dateOfYo 2021 3) = .ok (2020 * 1024 + 53 * 16 + flagsOf 2020) ∧
     IsoWeek.week (2021 * 1024 + 1 * 16 + flagsOf 2021) = 1 := by decide +kernel
 
+/-- **successor on the user-visible accessors**: when `succ_opt` returns a date, its `weekday()` is the
+`Weekday::succ` of the date's and it compares greater (`Date.cmp = -1`); `succ_ok` gives the day number -/
+theorem succ_weekday (y : Int) (o : Nat) (hy : MIN_YEAR ≤ y ∧ y ≤ MAX_YEAR) (ho : 1 ≤ o ∧ o ≤ yearLen y)
+    (d' : Date) (h : Date.succ_opt (dateOfYo y o) = .ok (some d')) :
+    d'.weekday = (dateOfYo y o).weekday.succ ∧ Date.cmp (dateOfYo y o) d' = -1 :=
+  succ_weekday' y o hy ho d' h
+
+/-- the predecessor has the previous weekday and compares smaller -/
+theorem pred_weekday (y : Int) (o : Nat) (hy : MIN_YEAR ≤ y ∧ y ≤ MAX_YEAR) (ho : 1 ≤ o ∧ o ≤ yearLen y)
+    (d' : Date) (h : Date.pred_opt (dateOfYo y o) = .ok (some d')) :
+    d'.weekday = (dateOfYo y o).weekday.pred ∧ Date.cmp (dateOfYo y o) d' = 1 :=
+  pred_weekday' y o hy ho d' h
+
+example : Date.succ_opt (dateOfYo 2023 365) = .ok (some (dateOfYo 2024 1)) ∧
+    (dateOfYo 2023 365).weekday = .sun ∧ (dateOfYo 2024 1).weekday = .mon ∧
+    Date.pred_opt (dateOfYo 2024 1) = .ok (some (dateOfYo 2023 365)) := by decide +kernel
+
 end Chrono.Props.C01
